@@ -396,4 +396,9 @@ var prop = stats.Prop(R, "cell", gen1, check)
 
 func TestCell(t *testing.T) { rapid.Check(t, prop) }
 
+// Concurrent evaluation of independent cells must give each its own exact result.
+var propParallel = stats.ParallelProp(R, "parallel", gen1, check, 6)
+
+func TestParallel(t *testing.T) { rapid.Check(t, propParallel) }
+
 func TestReplay(t *testing.T) { R.Replay(t) }
